@@ -808,7 +808,17 @@ def run(cfg):
     if set(reused) != set(fr):
         raise runner.HarnessError('C08 reuse cross-check: different case sets (%d / %d)' % (len(reused), len(fr)))
     bad = sorted(k for k in reused if reused[k] != fr[k])
-    if bad:
+    for k in bad:
+        # Not a harness error: the programs contain no assignment and every variable is re-bound from source before each
+        # case, so a different outcome after other programs can only come from an evaluation that changed something it
+        # does not own (an operand updated in place, a literal cached in the parse tree).  The later programs then denote
+        # different values under the two backends - on a history, which is what the reuse of the pair is.
+        rep.violation('history: %s after the programs enumerated before it (same interpreter pair)' % k,
+                      'outcome differs from the one on a brand-new interpreter pair',
+                      'the same outcome: programs without assignment do not change what later programs mean',
+                      case={'text': k, 'kind': 'reuse'}, group='evaluation-changes-the-meaning-of-later-programs',
+                      snippet=None)
+    if len(bad) > 50:
         raise runner.HarnessError('C08 reuse cross-check: reused and fresh interpreter pairs disagree on %d programs, '
                                   'first: %s' % (len(bad), bad[0]))
     rec = {r[0]: r[1:] for r in recs}                   # tree -> (class, magnitude, exact, representation class)
@@ -1000,6 +1010,10 @@ def selftest():
 def replay(cfg, path):
     with open(path) as f:
         r = json.load(f)
+    if r['case'].get('kind') == 'reuse':
+        print('history-dependent case: the program %r gives another outcome after the level-0/1 programs than on a brand-new '
+              'interpreter pair; re-run `./check C08 --tier quick` (the enumeration order is fixed) to reproduce' % r['case']['text'])
+        return 0
     t = _tup(r['case']['tree'])
     env = get_env()
     txt = text(t)
